@@ -19,6 +19,7 @@ func analyzeCmd(args []string) int {
 	seq := fs.Bool("seq", false, "sequential")
 	sanity := fs.Bool("sanity", false, "gob round trip of every fact")
 	sites := fs.Bool("sites", false, "include site identities of InferredMap facts")
+	fileOrder := fs.String("fileorder", "", "asc|desc: force the registration order of the module's files in the FileSet")
 	trig := fs.Bool("triggers", false, "include the full triggers of the assertion analyzer and the function contracts")
 	var kv multi
 	fs.Var(&kv, "flag", "k=v nilaway_config flag")
@@ -28,7 +29,7 @@ func analyzeCmd(args []string) int {
 		k, v, _ := strings.Cut(s, "=")
 		flags[k] = v
 	}
-	res, err := driver.Run(driver.Options{Dir: *dir, Patterns: fs.Args(), Flags: flags, Sequential: *seq, SanityCheck: *sanity, Sites: *sites, Triggers: *trig})
+	res, err := driver.Run(driver.Options{Dir: *dir, Patterns: fs.Args(), Flags: flags, Sequential: *seq, SanityCheck: *sanity, Sites: *sites, Triggers: *trig, FileOrder: *fileOrder})
 	if err != nil {
 		fmt.Fprintln(os.Stderr, err)
 		return 2
